@@ -15,6 +15,12 @@ def gen(r, n):
     scs.append(dict(u=150, period=20, ta=None, grace=4, leak=0.7, dur=12, on_term="ignore",
                     sigs=[(1.5, "INT"), (2.5, "INT")]))
     scs.append(dict(u=150, period=20, ta=None, grace=2, leak=0.7, dur=9, on_term="ignore", child=True, sigs=[(1.5, "TERM")]))
+    # a unit that sorts earlier is waiting out a retry delay when the first signal comes (it then
+    # returns without a Finished event); the second signal must still reach the stubborn test
+    scs.append(dict(u=150, period=20, ta=None, grace=12, leak=0.7, dur=16, on_term="ignore",
+                    retry_companion=dict(delay=30), sigs=[(1.5, "TERM"), (3.5, "INT")]))
+    scs.append(dict(u=150, period=20, ta=None, grace=10, leak=0.7, dur=14, on_term="ignore",
+                    retry_companion=dict(delay=30), sigs=[(2.5, "INT"), (4.5, "TERM")]))
     # during a timeout grace period
     scs.append(dict(u=150, period=1, ta=1, grace=4, leak=0.7, dur=12, on_term="ignore", sigs=[(2.5, "TERM")]))
     while len(scs) < n:
